@@ -17,10 +17,19 @@
      target   one schema field restricted by  targets = ...  x statements reaching it by every route
      strip    ordered subsets of populating statements x retention assignments (C22)
      sim      random longer lists drawn from struct + std (tlc -simulate)                      *)
+(* Runs: a set of records [mode, kinds, vals, n, maxret, tk] (written per tier by engines/optionlang.py into a
+   small module, TLC configuration files cannot hold records); one TLC invocation explores all of them:
+     kinds  element kinds; vals "full" | "small" source value set (scalar mode); n  max number of statements;
+     maxret max number of fields with a retention (strip mode); tk "single" | "pairs" target sets (target mode) *)
 EXTENDS OptionLang, Json
-CONSTANTS Mode, CKinds, ValSet, MaxStmts, MaxRet, TKSet
-VARIABLES kind, sch, stmts, acc, bad, uacc, ubad, info, sib
-vars == <<kind, sch, stmts, acc, bad, uacc, ubad, info, sib>>
+CONSTANTS Runs
+VARIABLES run, kind, sch, part, stmts, acc, bad, uacc, ubad, info, sib
+vars == <<run, kind, sch, part, stmts, acc, bad, uacc, ubad, info, sib>>
+Mode == run.mode
+ValSet == run.vals
+MaxStmts == run.n
+MaxRet == run.maxret
+TKSet == run.tk
 
 M  == NP("m", TRUE)
 P1(n) == <<NP(n, TRUE)>>
@@ -37,10 +46,11 @@ FullVals == PosInts \cup NegInts \cup {Flt("1.5"), NegFlt("1.5"), Flt("1e3")} \c
 SmallVals == {Int("1"), Int("2147483648"), NegInt("1"), Flt("1.5"), Id("true"), Id("inf"), Id("E_ONE"), Str("abc")}
 Vals == IF ValSet = "full" THEN FullVals ELSE SmallVals
 
-(* ---- scalar universe: every route to a field of type t ---- *)
-ScalarStmts ==
-  UNION { { Stmt(P1("x_" \o t), v), Stmt(PM("f_" \o t), v), Stmt(<<M>>, Msg(<<MF("f_" \o t, v)>>)) }
-          : t \in ValueTypes, v \in Vals } \cup
+(* ---- scalar universe: every route to a field of type t; partitioned (variable part) so that TLC
+   workers share the work of one element kind ---- *)
+ScalarOf(t) == UNION { { Stmt(P1("x_" \o t), v), Stmt(PM("f_" \o t), v), Stmt(<<M>>, Msg(<<MF("f_" \o t, v)>>)) }
+                       : v \in Vals }
+ScalarExtra ==
   UNION { { Stmt(PMS("x"), v), Stmt(PM("sub"), Msg(<<MF("x", v)>>)),
             Stmt(<<M>>, Msg(<<MFnc("sub", Msg(<<MF("x", v)>>))>>)),
             Stmt(<<M, NP("oext", TRUE)>>, v), Stmt(<<M>>, Msg(<<MFx("oext", v)>>)),
@@ -52,6 +62,8 @@ ScalarStmts ==
             Stmt(PM("grp"), Msg(<<MF("g", v)>>)), Stmt(<<M>>, Msg(<<MFnc("Grp", Msg(<<MF("g", v)>>))>>)) }
           : v \in Vals } \cup
   { Stmt(<<M>>, Msg(<<MFnc("f_int32", Int("1"))>>)), Stmt(P1("r"), Lst(<<Int("1"), Int("2")>>)) }
+ScalarStmts == IF part = "extra" THEN ScalarExtra ELSE ScalarOf(part)
+Parts == IF Mode = "scalar" THEN ValueTypes \cup {"extra"} ELSE {"all"}
 
 (* ---- structure universe ---- *)
 SubLit(x) == Msg(<<MF("x", Int(x))>>)
@@ -82,7 +94,8 @@ StructStmts == {
 StdVals(f) ==
   CASE f.t = "bool"   -> {Id("true"), Id("false"), Int("1"), Id("t")}
     [] f.t = "string" -> {Str("abc"), Id("abc")}
-    [] f.t = "enum"   -> { Id(n) : n \in EnumNames(f.mt) } \cup {Id("BOGUS"), Int("1")}
+    [] f.t = "enum"   -> { Id(n) : n \in EnumNames(f.mt) \ {"LITE_RUNTIME"} } \cup {Id("BOGUS"), Int("1")}
+                         \* (a LITE_RUNTIME file may not extend descriptor.proto: outside the fragment)
     [] f.t = "int32"  -> {Int("5"), NegInt("2147483648"), Int("2147483648"), Str("x")}
 StdStmts(k) == UNION { { Stmt(<<NP(f.n, FALSE)>>, v) : v \in StdVals(f) } : f \in StdTop(k) } \cup
                { Stmt(<<NP("no_such_option", FALSE)>>, Int("1")),
@@ -129,8 +142,10 @@ Schemas ==
     [] Mode = "strip"  -> { [NoSch EXCEPT !.ret = r] : r \in RetAssignments }
     [] OTHER -> {NoSch}
 
-Init == /\ kind \in CKinds
+Init == /\ run \in Runs
+        /\ kind \in run.kinds
         /\ sch \in Schemas
+        /\ part \in Parts
         /\ stmts = <<>> /\ acc = <<>> /\ bad = <<>> /\ uacc = <<>> /\ ubad = <<>>
         /\ info = [pre |-> FALSE, rules |-> {}, last |-> 0]
         /\ sib \in (IF Mode = "strip" /\ kind # "file" THEN {"none", "before", "after"} ELSE {"none"})
@@ -152,9 +167,9 @@ Next ==
   /\ IF Mode = "strip"
      THEN \E i \in (info.last + 1)..Len(StripSeq(kind)) : Step(StripSeq(kind)[i], i)
      ELSE IF Mode = "sim"
-     THEN Step(RandomElement(Universe(kind)), 0)
+     THEN \E s \in {RandomElement(Universe(kind))} : Step(s, 0)   \* one draw per step (tlc -simulate)
      ELSE \E s \in Universe(kind) : Step(s, 0)
-  /\ UNCHANGED <<kind, sch, sib>>
+  /\ UNCHANGED <<run, kind, sch, part, sib>>
 Spec == Init /\ [][Next]_vars
 
 (* ---- what is exported ---- *)
